@@ -1,10 +1,9 @@
-import PV.C20.Lemmas.FieldEq
+import PV.C20.Model
+import PV.C20.Lemmas.Basic
 /-! C20 helper lemmas — literal scanner: `parse_literal` computes the maximal literal run `litRun`. -/
 namespace PV.C20
 open Model
 
-def isBrace (c : Nat) : Prop := c = 123 ∨ c = 125
-instance (c : Nat) : Decidable (isBrace c) := by unfold isBrace; infer_instance
 
 /-- maximal literal run: text with doubled braces unescaped, and what is left -/
 def litRun : List Nat → List Nat × List Nat
